@@ -30,6 +30,7 @@ import (
 	"net/url"
 	"os"
 	"path/filepath"
+	"runtime"
 	"runtime/debug"
 	"strings"
 	"sync"
@@ -530,12 +531,33 @@ func (w *vfWorld) DoAdvancing(req *http.Request) *vfResp {
 			return r
 		case <-time.After(40 * time.Millisecond):
 		}
-		if vclock.Pending() > 0 {
+		// virtual time moves only when the request really waits for it: a timer is
+		// pending and no goroutine of the daemon is running or runnable (on a loaded
+		// machine a request can need longer than 40 ms without being stalled)
+		if vclock.Pending() > 0 && vfAllParked() {
 			vclock.Advance(3 * time.Second)
 		}
 	}
 	vfeng.HarnessFail("request %s %s did not finish although virtual time was advanced", req.Method, req.URL.Path)
 	return nil
+}
+
+// vfAllParked: no goroutine other than the caller is running, runnable or inside
+// a system / cgo call while executing code of this package.
+func vfAllParked() bool {
+	buf := make([]byte, 4<<20)
+	n := runtime.Stack(buf, true)
+	for i, g := range strings.Split(string(buf[:n]), "\n\n") {
+		if i == 0 {
+			continue // the caller itself
+		}
+		hdr := strings.SplitN(g, "\n", 2)[0]
+		busy := strings.Contains(hdr, "[running") || strings.Contains(hdr, "[runnable") || strings.Contains(hdr, "[syscall")
+		if busy && (strings.Contains(g, "\nmain.") || strings.Contains(g, "/keymaster/")) {
+			return false
+		}
+	}
+	return true
 }
 
 func (w *vfWorld) recoverWrap(h http.Handler) http.Handler {
